@@ -48,6 +48,12 @@ Write(d, endian) == IF endian = "big" THEN d ELSE Rev(d)
 Read(bs, endian) == IF endian = "big" THEN bs ELSE Rev(bs)
 Swap(d) == Rev(d)
 
+\* endianness/convert.hpp: "If _format does not match std::endian::native, then _value will have
+\* its endianness converted, otherwise it will be returned as-is."
+Convert(d, format, native) == IF format = native THEN d ELSE Swap(d)
+\* the bytes of a value in the memory of a machine with byte order `native`
+MemoryBytes(d, native) == IF native = "big" THEN d ELSE Rev(d)
+
 WriteInt(v, n, endian) == Write(Bytes(v, n), endian)
 ReadInt(bs, endian) == Num(Read(bs, endian))
 
@@ -222,11 +228,34 @@ EnumFromString(E, s) ==
   THEN <<(CHOOSE k \in 1..Len(EnumNames[E]) : EnumNames[E][k] = s) - 1>>
   ELSE <<>>
 
+\* enum/names.hpp "The names of an enum type": the table, one name per enumerator, in order
+
+(* ------------------------------------------------------------------ io::narrow_string / widen_string
+   io/narrow_string_locale.hpp: "Let _string = c_1 ... c_n and d_i = narrow(c_i,0) ... this function
+   returns the string d_1, ..., d_n if and only if d_i != 0 for i = 1,...,n".  With the classic
+   ctype facet an ASCII character narrows to itself; U+0000 and characters above U+00FF narrow to
+   the default 0 (characters in between are implementation specific and not driven).
+   io/widen_string.hpp: "Creates a string that outputs each character by widening".            *)
+IsAsciiChar(c) == c \in 1..127
+NarrowDefinite(w) == \A i \in 1..Len(w) : IsAsciiChar(w[i]) \/ w[i] = 0 \/ w[i] > 255
+NarrowString(w) == IF \A i \in 1..Len(w) : IsAsciiChar(w[i]) THEN <<w>> ELSE <<>>
+WidenString(s) == s   \* ASCII characters widen to themselves
+
 (* ------------------------------------------------------------------ vector / dim text *)
 RECURSIVE JoinNums(_)
 JoinNums(xs) == IF Len(xs) = 1 THEN NumText(xs[1]) ELSE NumText(xs[1]) \o <<44>> \o JoinNums(Tail(xs))
 
 \* "(a_1,a_2,...)", at least one component
 VecText(xs) == <<40>> \o JoinNums(xs) \o <<41>>
+
+\* math/matrix/output.hpp: "The format will contain no new-lines and will be of the form:
+\* ((a,b,c,...),(d,e,f,...),...,...)" - a sequence of parenthesised sequences
+RECURSIVE JoinTexts(_)
+JoinTexts(ts) == IF Len(ts) = 1 THEN ts[1] ELSE ts[1] \o <<44>> \o JoinTexts(Tail(ts))
+MatText(rows) == <<40>> \o JoinTexts([i \in 1..Len(rows) |-> VecText(rows[i])]) \o <<41>>
+Transpose(rows) == [j \in 1..Len(rows[1]) |-> [i \in 1..Len(rows) |-> rows[i][j]]]
+
+\* math/box/output.hpp: "The format will be (position,size)"
+BoxText(pos, size) == <<40>> \o VecText(pos) \o <<44>> \o VecText(size) \o <<41>>
 
 =============================================================================
